@@ -176,7 +176,7 @@ def check_migration_copy(ctx, model, rule, path, adt_suffix, new_fields):
     """A storage migration that rebuilds records of type `adt_suffix`: every field of the rebuilt record is copied from the
     SAME-NAMED field of the record being migrated, except the fields the migration introduces (`new_fields`, frozen list).
     A ledger field reset to a constant, or filled from a differently named field, silently rewrites every stored ledger."""
-    fns = [path] + [x for x in model.fnsrc if x.startswith(path + "::{closure")]
+    fns = [path] + model.closures_of(path)
     n = 0
     for q in fns:
         if q not in model.fnsrc:
